@@ -139,7 +139,8 @@ def run(module, cfg, generated=None, env=None, workers=None, timeout=1800, simul
         res.out = p.stdout
         _parse(p.stdout, res)
         if res.violated is None and p.returncode != 0:
-            tail = '\n'.join(p.stdout.splitlines()[-40:])
+            i = p.stdout.find('Error:')
+            tail = p.stdout[i:i + 1500] if i >= 0 else '\n'.join(p.stdout.splitlines()[-40:])
             raise TlcError('TLC failed on %s (rc=%d):\n%s' % (module, p.returncode, tail))
         res.ok = res.violated is None
         if keep:
